@@ -91,7 +91,7 @@ func World(t *T, s *model.Schema, d *model.Doc, opName string, vars map[string]*
 			if _, dup := w.Outcomes[key]; dup {
 				continue
 			}
-			kinds := []string{"nil", "err", "valerr", "panic_err"}
+			kinds := []string{"nil", "err", "valerr", "panic_err", "err_foreign"}
 			if o.Hostile {
 				kinds = append(kinds, "panic_str", "panic_int", "typednil")
 			}
@@ -111,14 +111,14 @@ func World(t *T, s *model.Schema, d *model.Doc, opName string, vars map[string]*
 					case ty.Name == "Int":
 						kinds = append(kinds, "bigint", "badleaf")
 					case ty.Name == "Float":
-						kinds = append(kinds, "nan", "badleaf")
+						kinds = append(kinds, "nan", "badleaf", "nantext")
 						if o.AllowInf {
 							kinds = append(kinds, "inf")
 						}
 					case named.Kind == model.KEnum:
 						kinds = append(kinds, "badenum", "badleaf", "leafpanic")
 					case named.Kind == model.KScalar && !builtinScalar(ty.Name):
-						kinds = append(kinds, "badleaf", "leafpanic")
+						kinds = append(kinds, "badleaf", "leafpanic", "sernan", "sernilptr")
 					}
 				}
 				if named.Kind == model.KIface || named.Kind == model.KUnion || (named.Kind == model.KObject && named.HasIsTypeOf) {
@@ -154,12 +154,20 @@ func World(t *T, s *model.Schema, d *model.Doc, opName string, vars map[string]*
 				if o.Hostile && et.Nullable().IsList() && chance(t, 50, "elemNotList") {
 					ek = "notlist"
 				}
-				if o.Hostile && et.Nullable().Named() && chance(t, 60, "elemLeaf") {
+				if regime == "thunks" && chance(t, 40, "elemThunk") {
+					ek = "thunk" // the element itself is handed over as a deferred value
+				} else if o.Hostile && et.Nullable().Named() && chance(t, 60, "elemLeaf") {
 					// one item of a list of leaves that serialises to nothing, or whose serializer raises
 					if etd := s.Type(et.Name); etd != nil && (etd.Kind == model.KEnum || (etd.Kind == model.KScalar && !builtinScalar(et.Name))) {
 						ek = pick(t, []string{"badleaf", "leafpanic", "leafpanic"}, "elemLeafKind")
+						if etd.Kind == model.KScalar && chance(t, 40, "elemSerNothing") {
+							ek = pick(t, []string{"sernan", "sernilptr"}, "elemSerKind")
+						}
 					} else if et.Name == "Int" || et.Name == "Float" {
 						ek = "badleaf" // (String / Boolean / ID digest any value: the property is silent there)
+						if et.Name == "Float" && chance(t, 50, "elemNaNText") {
+							ek = "nantext"
+						}
 					}
 				}
 				w.Outcomes[fmt.Sprintf("%s/%d", key, idx)] = ref.Outcome{Kind: ek}
